@@ -97,6 +97,8 @@ def run(tier):
                 arcs_seen.add((v, ev[0], len(ev[1])))
             if n_checked % 400 == 1:
                 out.sample({'text': text, 'version': v, 'start': b['start'], 'derivation': want[:4]})
+    n_pumped = pumped(out, tier, rng0)
+    out.cov(pumped_sentences=n_pumped)
     out.cov(traces_validated_against_impl=n_checked, evaluations=n_checked + n_unfaithful,
             distinct_nontrivial=len(seen_text), unrenderable_or_unfaithful=n_unfaithful,
             distinct_node_shapes=len(arcs_seen), exhaustive=False,
@@ -108,6 +110,61 @@ def run(tier):
     out.assumptions += ['token classes: one representative per class of tokens with identical plans in every state',
                         'renderer (self-checking: re-tokenised and compared)']
     return out
+
+
+# right-recursive rules of every shipped grammar (not_test: 'not' not_test; factor: ('+'|'-'|'~') factor;
+# test: or_test 'if' or_test 'else' test; lambdef: 'lambda' ':' test; power: atom_expr '**' factor): pumping the
+# recursive alternative n times is a sentence for every n.  The derivation is n nested nodes that the LAST token
+# closes all at once - the parser's work per token is unbounded, its own stack is explicit, and nothing in the
+# property bounds n.
+PUMPS = {'not': ('not ', 'x', ''), 'minus': ('- ', 'x', ''), 'invert': ('~', 'x', ''), 'lambda': ('lambda: ', 'x', ''),
+         'ternary': ('a if b else ', 'x', ''), 'power': ('x ** ', 'y', '')}
+CONTEXTS = {'stmt': ('', '\n', 'file_input'), 'assign': ('r = ', '\n', 'file_input'), 'arg': ('f(', ')\n', 'file_input'),
+            'suite': ('def g():\n    return ', '\n', 'file_input'), 'eval': ('', '', 'eval_input')}
+
+
+def pumped(out, tier, rng):
+    """deep right-recursive sentences: the strict and the recovering parser return, the leaves tile the text and are
+    the same in both (checked without recursion over the tree)"""
+    import sys
+    n = 0
+    depths = [3, 60, sys.getrecursionlimit() + 200] + ([3 * sys.getrecursionlimit()] if tier == 'thorough' else [])
+    versions = VERSIONS if tier == 'thorough' else [rng.choice(VERSIONS), _parserb.NEWEST]
+    for v in versions:
+        g = record.parso.load_grammar(version=v)
+        for pname, (rep, base, tail) in PUMPS.items():
+            for cname, (pre, post, start) in CONTEXTS.items():
+                for d in depths:
+                    text = pre + rep * d + base + tail + post
+                    kw = {} if start == 'file_input' else {'start_symbol': start}
+                    n += 1
+
+                    def leaves(m):
+                        out_, leaf = [], m.get_first_leaf()
+                        while leaf is not None:
+                            out_.append((leaf.type, leaf.prefix + leaf.value))
+                            leaf = leaf.get_next_leaf()
+                        return out_
+                    try:
+                        m = g.parse(text, error_recovery=False, **kw)
+                        ls = leaves(m)
+                        problem = None
+                        if m.type != start:
+                            problem = 'root is %s' % m.type
+                        elif ''.join(x[1] for x in ls) != text:
+                            problem = 'leaves do not tile the text'
+                        elif any(t in ('error_leaf',) for t, _ in ls):
+                            problem = 'error leaf in a strict tree'
+                        elif start == 'file_input' and leaves(g.parse(text)) != ls:
+                            problem = 'recovering parse differs'
+                    except BaseException as e:  # noqa
+                        problem = 'raised ' + record.exc_key(e)
+                    if problem:
+                        out.violation('DerivationReturned|pumped|%s' % problem.split('@')[0][:60], 'C06.StrictReturnsDerivation',
+                                      {'family': pname, 'context': cname, 'depth': d, 'version': v, 'problem': problem,
+                                       'text': text[:120]},
+                                      {'kind': 'sentence', 'text': text, 'version': v, 'start': start})
+    return n
 
 
 def _tokens(text, v):
